@@ -35,7 +35,7 @@ CHECKS = {
  "C16": dict(
    text="2-4 real threads, each with its own Environment/program/bindings (the documented contract), run under a seeded baton-passing scheduler that pre-empts at every Python line of celpy and of transpiled code (policies: PCT depth<=3, random, hot-site-biased, focus and single-point pre-emption inside functions that a static analysis of the tree finds touching shared state, round-robin; optional abort fault in one thread; cooperative model of Lock/RLock); every outcome must equal the same thread run alone; bounded liveness (<= 50x the alone step count). Sampling of schedules, not enumeration.",
    note="Pre-emption granularity is one source line (sys.monitoring LINE events); C extensions, lark (except in trace_lark runs of the thorough tier) and the stdlib are atomic. The choice of who runs is the only stub. Free-running OS-scheduled stress is deliberately not used (not replayable).",
-   technique="deterministic simulation: real threads under a seeded baton-passing scheduler (PCT/random/hot policies), alone-run oracle, schedule ddmin, explicit switch-list replay",
+   technique="deterministic simulation: real threads under a seeded baton-passing scheduler (PCT / random / shared-state-biased / targeted single-pre-emption policies over shared-state-directed workloads), alone-run oracle, schedule ddmin, explicit switch-list replay",
    ref="3 (C16)"),
  "C20": dict(
    text="celpy.__main__.main(argv) runs in-process on simulated standard streams (real TextIOWrapper/BufferedReader over a seeded short-read byte source) with the stream faults of the family applied to NDJSON lines: loss, duplication, reordering, torn line, garbage line, EOF without newline, CRLF, short reads, a line longer than the 8 KiB buffer. Oracles: a reference evaluator over the CLI fragment (-n output/status, -b statuses, syntax-error status and location, per-document value), and the history oracle that the output/status of a stream equal the concatenation/maximum of the CLI's behaviour on each line alone from a pristine state; a sample also goes through a real `python -m celpy` process. Sampling, not proof.",
@@ -62,7 +62,7 @@ m = {
  "setup_cmd": "/venv/bin/python sim/setup_check.py",
  "hooks": {
    "guard": "CEL_PYTHON_VERIF",
-   "enable": "no hook is compiled into /repo: the simulator pre-empts through sys.settrace and injects faults through arguments and standard-library seams; checks import /repo/src directly (PYTHONPATH) so they always run the current working tree",
+   "enable": "no hook is compiled into /repo: the simulator pre-empts through sys.monitoring line events and injects faults through arguments and standard-library seams; checks import /repo/src directly (PYTHONPATH) so they always run the current working tree",
    "baseline_off_cmd": "cd /repo && /venv/bin/python -m pytest -ra -q -p no:cacheprovider --timeout=900 --continue-on-collection-errors",
    "source_commits": [],
    "add_only": True
